@@ -5,7 +5,7 @@ RULE = ("one Kani harness per law (and per block of seconds of the day for the T
         "kani::any() over the stated ranges; a harness is non-trivial when all its kani::cover! witnesses are SATISFIED")
 
 MANIFEST = {
-    "engine": "K",
+    "engine": "K+M",
     "technique": "bounded model checking (Kani/CBMC, SAT) of tea-time's Time constructors/getters, Time +- TimeDelta and the "
                  "TimeDelta operators with chrono::Duration's (secs, nanos) arithmetic executed for real; month dispatch with "
                  "chrono's checked_add_months/checked_sub_months replaced by recorders",
@@ -57,20 +57,170 @@ def check(v, tier, opts):
                          "wide operand range; only the small-domain direct form is decided by the solver")
     v.stubs.add("chrono::DateTime::checked_add_months / checked_sub_months -> recorders returning the date-time unchanged "
                 "(c17_month_dispatch_* only)")
-    v.outside.append("DateTime<U> + TimeDelta, DateTime<U> - TimeDelta (t + d - d == t) and DateTime<U> - DateTime<U> ((a - b) + b == a) "
-                     "with valid operands, all four units, month-free or not: impl_ops.rs lines 9-86 convert through "
-                     "chrono::DateTime<Utc> (self.as_cr() -> TryFrom -> from_timestamp*/from_timestamp_nanos, `+ Months`, "
-                     "`+ Duration`, `dt1 - dt2`, `.into()` -> timestamp*()) — chrono's calendar conversion gave no solver answer "
-                     "in 40-55 min (DESIGN 1.1); no unit has a pure-i64 implementation. Only their NaT paths (C16 c16_natop_*) "
-                     "and the month-sign dispatch are decided here")
-    v.outside.append("adding calendar months agrees with the calendar library (end-of-month clamping): chrono's Months arithmetic itself")
-    v.outside.append("DateTime::duration_trunc (month arithmetic + chrono::DurationRound) — only its NaT path is decided (C16)")
+    v.outside.append("chrono's own implementation of Months arithmetic, DurationRound and the timestamp conversions: replaced by their "
+                     "documented contract in Engine M (validated against the real chrono on concrete operands each run), executed "
+                     "for real only in the Kani part (Duration arithmetic, NaiveTime)")
     v.outside.append("TimeDelta / TimeDelta -> i32 (not in the statement; panics by design on NaT or mismatching month/time quotients)")
     v.outside.append("Time values outside 0..86400 s: Time +- TimeDelta neither wraps nor saturates nor yields NaT (plain i64 "
                      "addition); as_cr() of such a value is None and the Timelike getters panic — witnessed, no law asserted")
     v.outside.append("durations with every combination of the ten textual units: TimeDelta::parse belongs to C18; operands here are "
                      "built from (months, secs, nanos) directly")
     kani_engine.decide(v, "C17", tier, opts)
-    return v.finish(RULE)
+    if not opts.get("only") or "mir" in opts.get("only"):
+        m_part(v, tier)
+    return v.finish(RULE + M_RULE)
+
+
+M_RULE = ("; Engine M: DateTime<U> + TimeDelta, DateTime<U> - TimeDelta, DateTime<U> - DateTime<U> and DateTime<U>::duration_trunc "
+          "(month-free) executed from their MIR for each of the four units with chrono replaced by its documented contract on "
+          "integer instants; z3 (LIA) asked for operands in 1678..2262 that violate the value law, the inverse law or reach a panic; "
+          "every (operator, unit) needs its vacuity witnesses satisfiable; the encoding (MIR + contract) is first run on concrete "
+          "operands against the real code linked with the real chrono")
+
+
+def _model_int(model, name):
+    from fractions import Fraction
+    x = (model or {}).get(name, 0)
+    return int(Fraction(x)) if not isinstance(x, int) else x
+
+
+def m_part(v, tier):
+    import json, os, random
+    import mir_engine as M
+    from mir_engine import time_ops as T
+    from mir_engine.mirparse import MirError
+    from common import REPLAYS, ensure_dir, log, seed
+    E = M.Engine(["tea-time"])
+    try:
+        ops = T.find_ops(E)
+        v.functions.update("MIR " + f.name for f in ops.values())
+        v.functions.add("MIR tea-time impl_datetime.rs TryFrom<DateTime<U>> for chrono::DateTime<Utc> / From<chrono::DateTime<Utc>> "
+                        "for DateTime<U> (4 units each), DateTime::{is_nat,is_not_nat,nat,new,as_cr}, TimeDelta::{is_not_nat,nat}")
+        rng = random.Random(1717 + seed())
+        rt = T.calendar_roundtrip()
+        v.evaluations += 1
+        if rt:
+            v.inconcl("calendar model: " + rt)
+        nval, agree = 0, True
+        for unit in T.UNITS:
+            n, bad = T.validate(E, ops, unit, rng)
+            nval += n
+            v.evaluations += n
+            for b in bad[:3]:
+                agree = False
+                v.inconcl("encoding (MIR + chrono contract) disagrees with the real code on concrete operands: " + b)
+        log(f"  [M] contract validation: {nval} concrete operand sets agree with the real code + real chrono: {agree}")
+        spans = T.SPANS if tier == "thorough" else [s for s in T.SPANS if s[0] in ("250ns", "1us", "7ms", "1s", "15m", "1d", "1w")]
+        jobs = []
+        for unit in T.UNITS:
+            jobs += [(unit, f"{first}_then_{'sub' if first == 'add' else 'add'}", (lambda u=unit, f=first: T.check_add_sub(E, ops, u, f)))
+                     for first in ("add", "sub")]
+            jobs.append((unit, "diff_then_add", (lambda u=unit: T.check_diff(E, ops, u))))
+            jobs += [(unit, "trunc_" + nm, (lambda u=unit, sp=sp: T.check_trunc(E, ops, u, sp))) for nm, sp in spans]
+            jobs += [(unit, f"months_{op}", (lambda u=unit, op=op: T.check_month_shift(E, ops, u, op))) for op in ("add", "sub")]
+            jobs += [(unit, f"mtrunc_{dm}mo", (lambda u=unit, dm=dm: T.check_month_trunc(E, ops, u, dm))) for dm in (1, 2, 3, 4, 6, 12)]
+        nbad = 0
+        for unit, name, mk in jobs:
+            hname = f"mir_{name}_{T.SHORT[unit]}"
+            dom, run, qs, vs, wit = mk()
+            n, fails, unk = T.ask_all(E, dom, run, qs, wit)
+            v.evaluations += n
+            for u in unk:
+                v.inconcl(f"{hname}: {u}")
+            reported = 0
+            for msg, model in fails:
+                key = f"{hname}::{msg}"
+                if v.is_known(key):
+                    v.note_known(key)
+                    continue
+                if reported >= 1:
+                    continue
+                reported += 1
+                nbad += 1
+                u = T.UNITS[unit][1]
+                if name.startswith(("add_", "sub_")):
+                    t = _model_int(model, "t"); d = _model_int(model, "k") * u + _model_int(model, "r")
+                    first = name[:3]
+                    calls = [(first, (t, 0, d)), (first + ("sub" if first == "add" else "add"), (t, 0, d))]
+                elif name.startswith(("months_", "mtrunc_")):
+                    y_, m_, d_, w_ = (_model_int(model, k) for k in "ymdw")
+                    t = T._days_from_civil(y_, m_, d_) * (T.NS_DAY // u) + w_
+                    if name.startswith("months_"):
+                        calls = [(name[7:], (t, _model_int(model, "n"), 0))]
+                    else:
+                        calls = [("trunc", (t, int(name[7:-2]), 0))]
+                elif name.startswith("diff"):
+                    a, b = _model_int(model, "a"), _model_int(model, "b")
+                    calls = [("diff", (a, b)), ("diffadd", (a, b))]
+                else:
+                    sp = dict(T.SPANS)[name[6:]]
+                    calls = [("trunc", (_model_int(model, "t"), 0, sp))]
+                rec = {"property": "C17", "kind": "dtop", "unit": unit, "solver_message": msg, "calls": []}
+                deviates = None
+                for op, nums in calls:
+                    got, want = T.native_dtop(op, unit, *nums), T.law_value(op, unit, *nums)
+                    rec["calls"].append({"op": op, "operands": list(nums), "native": got, "law": want})
+                    if want is not None and got != "R " + want and deviates is None:
+                        deviates = f"DateTime<{unit}> {op} {nums} natively gives '{got[:100]}', the law gives {want}"
+                d_ = ensure_dir(os.path.join(REPLAYS, "C17"))
+                path = os.path.join(d_, hname + ".json")
+                json.dump(rec, open(path, "w"), indent=1)
+                if deviates:
+                    v.failure(key, path, deviates)
+                else:
+                    v.inconcl(f"{hname}: solver counterexample ({msg}) does not reproduce natively; case {path}")
+            if not fails and not unk:
+                v.nontrivial += 1
+        log(f"  [M] date-time operators under the chrono contract: {len(jobs)} (operator, unit) encodings, {nbad} with a new counterexample")
+        v.bounds.append("Engine M: every timestamp whose instant lies in 1678-01-01 .. 2262-01-01 (the property's range) at each of the "
+                        "four units; month-free durations of any size and sign keeping the shifted instant in that range (value law: every "
+                        "duration; inverse law: durations that are a whole number of the date-time's unit); differences of any two instants "
+                        "of the range; truncation to the listed month-free spans (quick: 250ns 1us 7ms 1s 15m 1d 1w; thorough adds 1ns 1ms "
+                        "90s 1m 1h 36500d) with the truncated instant itself inside the range; month shifts: every date-time of the "
+                        "range (given by symbolic year, month, day and within-day part), every month count -1200..1200 except 0, no "
+                        "sub-month part, result inside the range; month truncation: every date-time of the range, period lengths "
+                        "1, 2, 3, 4, 6 and 12 months, no sub-month part")
+        v.assumptions.append("chrono's documented contract stands in for chrono (instants/durations as integers of nanoseconds; from_timestamp* "
+                             "Some inside chrono's range; timestamp*() floor; DateTime +- TimeDelta exact, panicking outside chrono's range; "
+                             "DurationRound::duration_trunc = t - (t mod span) with Err for span <= 0 or values beyond i64 ns); validated on "
+                             f"{nval} concrete operand sets per run against the real chrono linked into /verif/replay")
+        v.outside.append("(t + d) - d for a duration that is not a whole number of the date-time's unit: DateTime<Second>(100) + 500ms is "
+                         "floored to 100 and - 500ms then gives 99 — no resolution-limited type can return the original instant there; the "
+                         "value law (floor of the exact instant) is what is decided for such durations")
+        v.assumptions.append("calendar contract: chrono's dates are the proleptic Gregorian calendar (days-from-civil / civil-from-days with "
+                             "floor divisions), `DateTime +- Months` moves whole calendar months and clamps the day to the length of the "
+                             "target month, year_ce/year/month/month0/day/with_day/with_time/with_month/with_year as documented; "
+                             "the day-number bijection is checked for every day of 1677..2263 in plain integers on every run, and the "
+                             "encoding is compared with the real chrono on end-of-month and leap-day operands")
+        v.outside.append("truncation spans other than the listed constants (a symbolic span makes `t mod span` non-linear); durations "
+                         "carrying both a month part and a sub-month part (the statement has no law for them); month truncation by "
+                         "period lengths that do not divide 12")
+    except (M.ExecError, MirError) as e:
+        v.inconcl(f"cannot encode the date-time operators: {e}")
+    finally:
+        v.solver_time += E.solver.time
+        v.engines["mir2smt"] = {"solver": "z3 4.8.12 (LIA)", "queries": E.solver.queries, "answers": E.solver.stats}
+        E.close()
+
+
+def replay(path):
+    from common import log
+    if path.endswith(".json"):
+        import json
+        from mir_engine import time_ops as T
+        rec = json.load(open(path))
+        bad = 0
+        for c in rec["calls"]:
+            got, want = T.native_dtop(c["op"], rec["unit"], *c["operands"]), c["law"]
+            dev = want is not None and got != "R " + want
+            log(f"{'REPRODUCED' if dev else 'passes    '} DateTime<{rec['unit']}> {c['op']} {c['operands']}: native '{got[:120]}', law {want}")
+            bad += dev
+        return 1 if bad else 0
+    res = kani_engine.run_playback_file(path, "c17,playback")
+    n = 0
+    for t, panicked, msg in res:
+        log(f"{'REPRODUCED' if panicked else 'passes    '} {t}: {msg[:300]}")
+        n += panicked
+    return 1 if n else 0
 
 READY = True
